@@ -78,6 +78,7 @@ func register(s *Scenario) { scenarios[s.Prop] = append(scenarios[s.Prop], s) }
 type RunReport struct {
 	Scenario     string         `json:"scenario"`
 	Cell         int            `json:"cell"`
+	Gen          bool           `json:"gen,omitempty"` // no tape: replay by regenerating from the seed
 	Seed         uint64         `json:"seed"`
 	Viols        []*Violation   `json:"viols,omitempty"`
 	Tape         simrt.Tape     `json:"tape"`
